@@ -94,6 +94,10 @@ def generate():
         body += "def pos (name : String) : Nat := (acquireOrder.idxOf name)\n"
         body += "/-- every handler lock is acquired before every queue lock -/\n"
         body += "def handlerFirst : Bool := decide (pos \"handler_locks\" < pos \"queue_locks\")\n"
+        body += "/-- acquire_locks() takes the logger locks before it iterates any other set -/\n"
+        body += "def loggerFirst : Bool := decide (acquireOrder.head? = some \"logger_locks\")\n"
+        body += "/-- release_locks() releases the logger locks after it has iterated every other set -/\n"
+        body += "def loggerLast : Bool := decide (releaseOrder.getLast? = some \"logger_locks\")\n"
     except (Unsupported, SyntaxError, KeyError, AttributeError, IndexError, OSError) as e:
         errors.append("%s: %s" % (type(e).__name__, e))
     body += "\nend Locks.Gen\n"
